@@ -150,7 +150,7 @@ impl Gen {
 }
 
 fn direct_sub(read: bool) -> SubCfg {
-    SubCfg { kind: SubKind::Direct, read_state: read, gate: None, sleep_ms: 0, shared: false }
+    SubCfg { kind: SubKind::Direct, read_state: read, gate: None, sleep_ms: 0, shared: false, ..Default::default() }
 }
 
 /// family core: producers, reducer chain, direct subscribers, readers, late registration
